@@ -118,8 +118,80 @@ def worker_init(tier, seed):
     atexit.register(shutil.rmtree, _TMP, True)
 
 
+SMALLINT_EXTS = ["h5", "xtc", "trr", "dcd", "nc", "mdcrd", "xyz", "xyz.gz", "lammpstrj", "gro", "pdb", "dtr", "rst7", "ncrst"]
+
+
 def gen_cases(tier, seed):
-    return _grouped(_gen_cases(tier, seed))
+    import itertools
+    return itertools.chain(_grouped(_gen_cases(tier, seed)), _gen_smallint(tier, seed))
+
+
+def _gen_smallint(tier, seed):
+    # atom_indices in small integer dtypes (uint8, int8, uint16, int16) on systems large enough that multiples of an index no
+    # longer fit the dtype (3 * 100 > 255): an index array must select the same atoms whatever integer type it has
+    for k, ext in enumerate(SMALLINT_EXTS):
+        for op in ("load", "frame", "iterload"):
+            yield dict(i=10 ** 7 + 3 * k + ["load", "frame", "iterload"].index(op), fmt=ext, n=3, op=op, kind="smallint", na=int([130, 200][(k + seed) % 2]),
+                       seed=common.case_seed(seed, "C02smallint", k))
+
+
+def _run_smallint(case, ctx):
+    import mdtraj as md
+    ext, na, op = case["fmt"], case["na"], case["op"]
+    rng = common.rng_for("C02si", case["seed"])
+    restart = ext in ("rst7", "ncrst")
+    nf = 1 if restart else 3
+    top = files.ident_top(na)
+    t = md.Trajectory(rng.uniform(-4, 4, (nf, na, 3)).astype(np.float32), top, time=np.arange(nf, dtype=np.float32),
+                      unitcell_lengths=np.full((nf, 3), 9.0, np.float32), unitcell_angles=np.full((nf, 3), 90.0, np.float32))
+    d = tempfile.mkdtemp(prefix="si-", dir=_TMP or "/var/tmp")
+    try:
+        path = os.path.join(d, "big." + ext)
+        t.save(path)
+        kw = {} if ext in ("h5", "gro", "pdb") else {"top": top}
+        full = md.load(path, **kw)
+        if full.n_atoms != na or full.n_frames != nf:
+            ctx.skip("smallint", f"{ext}: the full load does not return {nf} x {na} (C01's subject)")
+            return
+        if restart and op != "load":
+            ctx.skip("smallint", "restart files: md.load only")
+            return
+        if ext == "dtr" and op != "load":
+            ctx.skip("smallint", "dtr: load_frame / iterload return the remaining frames (known finding dtr:read_as_traj-ignores-n_frames, judged in the main stream)")
+            return
+        for dt, hi in ((np.uint8, 255), (np.int8, 127), (np.uint16, na - 1), (np.int16, na - 1)):
+            top_i = min(hi, na - 1)
+            idx = np.unique(np.concatenate([[0, 43, 85, 86, 100, top_i], rng.integers(0, top_i + 1, 6)])).astype(np.int64)
+            arr = idx.astype(dt)
+            ctx.observe("atom_indices_dtype", np.dtype(dt).name)
+            what = f"{ext} {op} with atom_indices as {np.dtype(dt).name} (largest index {int(idx.max())}, {na} atoms)"
+            try:
+                if op == "load":
+                    got = md.load(path, atom_indices=arr, **kw)
+                    fsel = np.arange(nf)
+                elif op == "frame":
+                    got = md.load_frame(path, 1, atom_indices=arr, **kw)
+                    fsel = np.array([1])
+                else:
+                    chunks = list(md.iterload(path, chunk=2, atom_indices=arr, **kw))
+                    got = chunks[0] if len(chunks) == 1 else md.join(chunks, check_topology=False)
+                    fsel = np.arange(nf)
+            except NotImplementedError:
+                ctx.skip("smallint", f"{ext}: {op} is not offered (NotImplementedError)")
+                break
+            except Exception as e:
+                ctx.violation("smallint", f"{ext}:{op}:atom_indices[{np.dtype(dt).name}]:raises:{type(e).__name__}", f"{what} raised {e!r}")
+                continue
+            exp = full.xyz[fsel][:, idx]
+            if got.xyz.shape != exp.shape or not np.array_equal(got.xyz, exp):
+                ctx.violation("smallint", f"{ext}:{op}:atom_indices[small-integer-dtype]:other-atoms-than-with-int64",
+                              f"{what}: coordinates are not those of the listed atoms in the full load")
+            elif [a.index for a in got.topology.atoms] != list(range(len(idx))) or [a.name for a in got.topology.atoms] != [full.topology.atom(int(i)).name for i in idx]:
+                ctx.violation("smallint", f"{ext}:{op}:atom_indices[small-integer-dtype]:topology-not-the-listed-atoms", f"{what}: topology does not hold the listed atoms")
+            else:
+                ctx.ok("smallint")
+    finally:
+        shutil.rmtree(d, ignore_errors=True)
 
 
 def _gen_cases(tier, seed):
@@ -473,6 +545,8 @@ def run_case(case, ctx):
                                  "(known heap overflow corrupts the process)")
         ctx.observe("asan_hazard_cases_executed", case["op"])
         return
+    if case.get("kind") == "smallint":
+        return _run_smallint(case, ctx)
     _run_case(case, ctx)
 
 
